@@ -5,8 +5,8 @@
 EXTENDS AdaptiveLoop, Json, IOUtils
 
 JTrace == JsonDeserialize(IOEnv.TRACE_FILE)
-VARIABLES l, bad, seen, tphase
-tvars == <<vars, l, bad, seen, tphase>>
+VARIABLES l, bad, seen, tphase, sess
+tvars == <<vars, l, bad, seen, tphase, sess>>
 
 \* phases the recorder can observe, in protocol order
 Order == <<"configure", "assemble", "rhs", "solve", "hh2", "hier", "residual">>
@@ -20,18 +20,26 @@ Failed(r) ==
        (IF ~Accepted(r.problem, r.domain) THEN {"d:rejected-combination-ran"} ELSE {})
        \cup (IF r.dev > 1000000 THEN {"orthogonality"} ELSE {})
   ELSE IF r.k = "system" THEN (IF r.dev > 1000000 THEN {"linear-system"} ELSE {})
+  ELSE IF r.k = "session" THEN
+       \* Sessions.tla: V is shared by all runs on one curve and switch, the load vector only by runs of one problem
+       \* (at iteration 0 the matrix is below the size at which bilform_matrix uses files at all: Assembly.tla, inline path)
+       (IF r.sl_hit THEN {"d:session-matrix-file-for-small-size"} ELSE {})
+       \cup (IF r.m0_hit # (r.prior = r.problem /\ HasU0(r.problem)) THEN {"d:session-vector-cache"} ELSE {})
   ELSE IF r.k = "run" THEN (IF r.exc # "" THEN {"run-failed"} ELSE {})
   ELSE {}
-TInit == Init /\ l = 1 /\ bad = {} /\ seen = {} /\ tphase = "configure"
+TInit == Init /\ l = 1 /\ bad = {} /\ seen = {} /\ tphase = "configure" /\ sess = {}
 TStep ==
   /\ l <= Len(JTrace)
   /\ LET r == JTrace[l] IN
        /\ bad' = bad \cup {<<l, c>> : c \in Failed(r)}
        /\ seen' = IF r.k = "leaf" THEN seen \cup {<<r.problem, r.domain, r.exact>>} ELSE seen
+       /\ sess' = IF r.k = "session" THEN sess \cup {<<r.prior, r.problem, r.domain, r.exact>>} ELSE sess
        /\ tphase' = IF r.k = "phase" THEN r.phase ELSE tphase
   /\ l' = l + 1 /\ UNCHANGED vars
 TSpec == TInit /\ [][TStep]_tvars
 Wanted == {<<c[1], c[2], x>> : c \in AcceptedCombos, x \in BOOLEAN}
-Report == (l = Len(JTrace) + 1) => PrintT(<<"BAD", bad, "MISSING", Wanted \ seen>>)
+\* the two problems with initial data that share a domain, run one after the other from one directory, both switches
+WantedSessions == {<<a, b, "UnitSquare", x>> : <<a, b>> \in {<<"Smooth", "Singular">>, <<"Singular", "Smooth">>}, x \in BOOLEAN}
+Report == (l = Len(JTrace) + 1) => PrintT(<<"BAD", bad, "MISSING", (Wanted \ seen) \cup (WantedSessions \ sess)>>)
 Done == TLCGet("stats").diameter = Len(JTrace) + 1
 =============================================================================
